@@ -8,6 +8,7 @@ an explicit sampler); `Loader.epoch` collates every batch by `tensor_frame[index
 (TFVerif/Model/Loader.lean).  The theorems hold for every order, batch size and frame.
 -/
 import TFVerif.Proofs.Loader
+import TFVerif.Proofs.FrameRagged
 
 namespace TFVerif.C10
 open TFVerif TFVerif.TF TFVerif.Loader
@@ -119,4 +120,53 @@ example : exFrame.WF S 3 ∧ (∀ i ∈ [2, 0, 1], i < 3) ∧
       some [some [30, 10], some [20]] :=
   ⟨exFrame_wf, by decide, by decide⟩
 
+/-! ### the ragged containers (instance of `batch_is_selection` at `featOps` / `featSpec`)
+
+`featSpec cl` (TFVerif/Proofs/FrameRagged.lean, built from the C05/C06 refinement theorems) is the
+specification of the storage the executable driver runs: dense tensors, `MultiNestedTensor`,
+`MultiEmbeddingTensor` and dicts of `MultiNestedTensor`. -/
+
+section ragged
+variable {α : Type}
+
+/-- **Every batch is the selection of its rows, ragged containers included.** -/
+theorem batch_is_selection_ragged (cl : α → α → Bool) {f : Frame (Feat α) β} {n : Nat}
+    (hwf : f.WF (featSpec cl) n) {order : List Nat} (horder : ∀ i ∈ order, i < n) {bs : Option Nat} {dl : Bool}
+    {bss : List (List Nat)} (hb : batches order bs dl = some bss) :
+    ∃ frames, epoch (featOps cl) f order bs dl = some frames ∧ All2 (IsSel (featSpec cl) f) bss frames :=
+  batch_is_selection (featSpec cl) hwf horder hb
+
+/-- ... read back on the containers: in the batch collated for the index list `b`, a
+    `MultiNestedTensor` feature is a well-formed `MultiNestedTensor` whose cells are the cells of
+    rows `b` of the dataset's tensor, in batch order; a `MultiEmbeddingTensor` feature likewise. -/
+theorem batch_ragged_cells (cl : α → α → Bool) {f : Frame (Feat α) β} {n : Nat}
+    (hwf : f.WF (featSpec cl) n) {order : List Nat} (horder : ∀ i ∈ order, i < n) {bs : Option Nat} {dl : Bool}
+    {bss : List (List Nat)} (hb : batches order bs dl = some bss) :
+    ∃ frames, epoch (featOps cl) f order bs dl = some frames ∧
+      All2 (fun b g =>
+        (∀ s m, assoc s f.feats = some (.nested m) → ∃ m', assoc s g.feats = some (.nested m') ∧
+          m'.WFRep ∧ m'.numCols = m.numCols ∧ m'.grid.rows = Grid.pick m.grid.rows b) ∧
+        (∀ s m, assoc s f.feats = some (.emb m) → ∃ m', assoc s g.feats = some (.emb m') ∧
+          EmbWF m' ∧ m'.colWidths = m.colWidths ∧ m'.grid.rows = Grid.pick m.grid.rows b)) bss frames := by
+  obtain ⟨frames, h1, h2⟩ := batch_is_selection_ragged cl hwf horder hb
+  exact ⟨frames, h1, h2.mono fun b g hsel => isSel_ragged_cells cl hsel⟩
+
+open RaggedEx (frame frame2 frame_wf left2 right2 mnt3 met3 ids3 mask3 nestedOf embOf dictOf) in
+/-- non-vacuity: a shuffled epoch with batch size 2 over the mixed 3-row frame: batch `[2, 0]` holds
+    rows 2, 0 of the ragged cells / embedding rows / target (re-based offsets), batch `[1]` row 1. -/
+example : frame.WF (featSpec RaggedEx.eqI) 3 ∧ (∀ i ∈ [2, 0, 1], i < 3) ∧
+    batches [2, 0, 1] (some 2) false = some [[2, 0], [1]] ∧
+    (epoch (featOps RaggedEx.eqI) frame [2, 0, 1] (some 2) false).map
+        (fun frs => frs.map fun g => (nestedOf g "multicategorical", embOf g "embedding", g.y)) =
+      some [(some { numRows := 2, numCols := 2, values := [8, 9, 1, 2, 3], offset := [0, 2, 2, 4, 5] },
+             some { numRows := 2, numCols := 2, width := 3, values := [[7, 8, 9], [1, 2, 3]], offset := [0, 2, 3] },
+             some [30, 10]),
+            (some { numRows := 1, numCols := 2, values := [4, 5, 6, 7], offset := [0, 1, 4] },
+             some { numRows := 1, numCols := 2, width := 3, values := [[4, 5, 6]], offset := [0, 2, 3] },
+             some [20])] ∧
+    (MNT.grid ({ numRows := 2, numCols := 2, values := [8, 9, 1, 2, 3], offset := [0, 2, 2, 4, 5] } : MNT Int)).rows
+      = Grid.pick mnt3.grid.rows [2, 0] :=
+  ⟨frame_wf, by decide, by decide, by decide, by decide⟩
+
+end ragged
 end TFVerif.C10
